@@ -24,6 +24,7 @@
 package c03
 
 import (
+	"github.com/bronlabs/bron-crypto/pkg/base/curves/k256"
 	"bytes"
 	"fmt"
 	"os"
@@ -382,7 +383,7 @@ func chooseConfig(x *engine.X, n, procs int) int {
 }
 
 func TestCheck(t *testing.T) {
-	engine.Rule("one execution = one (key generation, group, compiler, access structure, identifier assignment[, API]) configuration run with two seeds; the sections take the slices of DESIGN §5 C03 completely: (1) every catalogue structure (threshold, unanimity, labelled CNF, hierarchical <=3 levels, boolexpr) with n<=3 (thorough n<=4 and T(4,7)) on k256/Fiat–Shamir x {Gennaro, Canetti, dealer}; (2) all 7 groups x {Gennaro x 3 compilers, Canetti, dealer} on T(2,3); (3) every identifier assignment in the documented domain x {T(2,3), cnf3{0|12}} (thorough: + hierarchical, non-ideal boolexpr) x 3 kg; (4) the same slices (2),(3) through the networked runners under the scheduler, compared with the round-by-round run of the same seeds; (5) Lindell17 dealer / DKG; (6) every catalogue CNF (>= 2 clauses), hierarchical, threshold and unanimity structure where party i builds its OWN access-structure object from its own listing (clause list rotated by i and reversed for odd i, set members listed in reverse) x {Gennaro, Canetti, dealer}; (7) every hierarchical structure under every permutation of three identifier pools ({1,2,3,4}, {2,4,6,9}, {3,7,64,10}) on the parties x {Gennaro, dealer}: either the scheme constructor refuses the placement or the whole oracle applies. Inside an execution EVERY non-empty subset of shareholders is an inner case. A configuration is non-trivial when keys were produced and every subset was evaluated.")
+	engine.Rule("one execution = one (key generation, group, compiler, access structure, identifier assignment[, API]) configuration run with two seeds; the sections take the slices of DESIGN §5 C03 completely: (1) every catalogue structure (threshold, unanimity, labelled CNF, hierarchical <=3 levels, boolexpr) with n<=3 (thorough n<=4 and T(4,7)) on k256/Fiat–Shamir x {Gennaro, Canetti, dealer}; (2) all 7 groups x {Gennaro x 3 compilers, Canetti, dealer} on T(2,3); (3) every identifier assignment in the documented domain x {T(2,3), cnf3{0|12}} (thorough: + hierarchical, non-ideal boolexpr) x 3 kg; (4) the same slices (2),(3) through the networked runners under the scheduler, compared with the round-by-round run of the same seeds; (5) Lindell17 dealer / DKG; (6) every catalogue CNF (>= 2 clauses), hierarchical, threshold and unanimity structure where party i builds its OWN access-structure object from its own listing (clause list rotated by i and reversed for odd i, set members listed in reverse) x {Gennaro, Canetti, dealer}; (7) every hierarchical structure under every permutation of three identifier pools ({1,2,3,4}, {2,4,6,9}, {3,7,64,10}) on the parties x {Gennaro, dealer}: either the scheme constructor refuses the placement or the whole oracle applies; (8) sessions whose quorum differs from the shareholder set (subset, superset, other member) x {Gennaro, Canetti}: the run must be refused. Inside an execution EVERY non-empty subset of shareholders is an inner case. A configuration is non-trivial when keys were produced and every subset was evaluated.")
 	engine.Assume("all parties honest, default schedule and FIFO delivery for the runner sections (C11/C04 own the rest)", "reference models verifmc/ref/curve, ref/linalg, ref/policy and math/big are correct", "two seeds per configuration (engine seed, +1); 'independent keys' is checked as 'different public keys'", "Paillier decryption of the Lindell17 auxiliary ciphertexts uses the library (C16 owns Paillier)", "purego build; SCHED overlay for the runner sections")
 	buildCatalogue()
 	fs := fiatshamir.Name
@@ -499,6 +500,42 @@ func TestCheck(t *testing.T) {
 			}
 		}
 		explore("hierarchical-any-placement/k256", l, engine.Opts{Budget: engine.Budget(4*time.Minute, 10*time.Minute)})
+	}
+
+	// (8) the session's quorum and the structure's shareholders differ (a shareholder has no seat in the session, or a
+	// session member is no shareholder): the participant constructors must refuse — a key generation that completes
+	// without a shareholder leaves that shareholder without a share, so the qualified sets containing it cannot
+	// reconstruct
+	if onlyMatch("session-structure-mismatch/k256") {
+		engine.Explore(func(x *engine.X) {
+			type mm struct {
+				name      string
+				session   []sharing.ID
+				threshold uint
+				holders   []sharing.ID
+			}
+			cases := []mm{
+				{"session{1,2,3}-structure-T(2,4){1,2,3,4}", []sharing.ID{1, 2, 3}, 2, []sharing.ID{1, 2, 3, 4}},
+				{"session{1,2,3,4}-structure-T(2,3){1,2,3}", []sharing.ID{1, 2, 3, 4}, 2, []sharing.ID{1, 2, 3}},
+				{"session{1,2,4}-structure-T(2,3){1,2,3}", []sharing.ID{1, 2, 4}, 2, []sharing.ID{1, 2, 3}},
+				{"session{2,3}-structure-T(2,3){1,2,3}", []sharing.ID{2, 3}, 2, []sharing.ID{1, 2, 3}},
+			}
+			c := cases[x.Choose("mismatch", len(cases))]
+			kg := []string{"gennaro", "canetti"}[x.Choose("kg", 2)]
+			ac := proto.Threshold(c.threshold, c.holders...)
+			x.Case(kg + "/" + c.name)
+			var err error
+			var shards shardMap[*k256.Point, *k256.Scalar]
+			if kg == "gennaro" {
+				shards, err = proto.GennaroRounds(c.session, ac, k256.NewCurve(), fs, engine.Seed())
+			} else {
+				shards, err = proto.CanettiRounds(c.session, ac, k256.NewCurve(), engine.Seed())
+			}
+			x.Observe(kg, c.name, err == nil)
+			if err == nil {
+				x.Failf("mismatch-accepted/"+kg, "%s: key generation over a session whose quorum %v is not the shareholder set %v of the structure completed without error (%d shards): the shareholders outside the session hold nothing", kg, c.session, c.holders, len(shards))
+			}
+		}, engine.Opts{Name: "session-structure-mismatch/k256", Budget: engine.Budget(2*time.Minute, 4*time.Minute)})
 	}
 
 	// (6) every party builds its own access-structure object from its own listing of the agreed structure (clause
